@@ -26,11 +26,28 @@ def add(c):
 
 # every file / cached bytecode was rendered by this function for SOME declaration (any code strings),
 # with the cookie of ITS OWN code strings; bytecode exists only for existing sources
+# a file this code tolerates although it did not write it: it imports and defines nothing (an empty file, a module of
+# an older version that carried no cookie is treated the same way as long as it defines none of the three names)
+define('blank(c)', "exec_outcome(c) == 0 and not defines(c, 'BISTURI_PACKET_COOKIE') and not defines(c, 'pack_impl')"
+                   " and not defines(c, 'unpack_impl') and not defines(c, '__cached__')")
+define('tolerable(c)', "honest(c) or blank(c)")
+# a module object of this process: whatever sequence of tolerable texts was executed into it, its cookie (if any) is
+# the cookie of the LAST honest text, which defined the functions for the directions it was generated for
+define('NSInv(m)',
+       "implies(hasslot(m, 'BISTURI_PACKET_COOKIE'),"
+       "  isstr(slot(m, 'BISTURI_PACKET_COOKIE'))"
+       "  and strval(slot(m, 'BISTURI_PACKET_COOKIE')) == cookie_of(cookie_pack_code(strval(slot(m, 'BISTURI_PACKET_COOKIE'))),"
+       "                                                            cookie_unpack_code(strval(slot(m, 'BISTURI_PACKET_COOKIE'))))"
+       "  and implies(cookie_pack_code(strval(slot(m, 'BISTURI_PACKET_COOKIE'))) != '', hasslot(m, 'pack_impl')"
+       "              and same(slot(m, 'pack_impl'), codefn('pack', cookie_pack_code(strval(slot(m, 'BISTURI_PACKET_COOKIE'))))))"
+       "  and implies(cookie_unpack_code(strval(slot(m, 'BISTURI_PACKET_COOKIE'))) != '', hasslot(m, 'unpack_impl')"
+       "              and same(slot(m, 'unpack_impl'), codefn('unpack', cookie_unpack_code(strval(slot(m, 'BISTURI_PACKET_COOKIE')))))))")
+define('ModulesOK()', "forall(lambda n_s: implies(mod_loaded(n_s), NSInv(mod_ref(n_s))), pat=lambda n_s: mod_ref(n_s))")
 define('HonestCache()',
        # (temporary files - names handed out by tempfile - are nobody's cache module)
-       "forall(lambda p_s: implies(fs_exists(p_s) and not is_tmp(p_s), honest(fs_content(p_s))), pat=lambda p_s: fs_content(p_s))"
+       "forall(lambda p_s: implies(fs_exists(p_s) and not is_tmp(p_s), tolerable(fs_content(p_s))), pat=lambda p_s: fs_content(p_s))"
        " and forall(lambda p_s: implies(pyc_exists(p_s) and not is_tmp(p_s), fs_exists(p_s)), pat=lambda p_s: pyc_exists(p_s))"
-       " and forall(lambda p_s: implies(pyc_exists(p_s) and not is_tmp(p_s), honest(pyc_code(p_s))), pat=lambda p_s: pyc_code(p_s))")
+       " and forall(lambda p_s: implies(pyc_exists(p_s) and not is_tmp(p_s), tolerable(pyc_code(p_s))), pat=lambda p_s: pyc_code(p_s))")
 
 # what executing a rendered module defines (ASSUMED about the text the dropped prefix generates: it compiles,
 # it defines the cookie, pack_impl iff pack code was generated, unpack_impl iff unpack code was generated -
@@ -66,14 +83,14 @@ add(Contract(
         "self.generate_for_pack or self.generate_for_unpack",
         "(pack_code != '') == self.generate_for_pack",
         "(unpack_code != '') == self.generate_for_unpack",
-        "HonestCache()",
+        "HonestCache()", "ModulesOK()",
         # the class attributes hold plain functions (compared by identity)
         "isfunction(self.pkt_class.pack_impl) and isfunction(self.pkt_class.unpack_impl)",
     ],
     free_requires=_RENDER_AXIOMS,
     ensures=[
         # (1) the cache stays honest: inductive invariant over histories of definitions
-        "HonestCache()",
+        "HonestCache()", "ModulesOK()",
         # (2) the class runs the code generated NOW for the directions that are switched on (unless the user
         #     overrode the method in the class), whatever the cache held - or keeps the generic drivers, which
         #     follow the declaration by construction (the statement is about behaviour, not about speed)
